@@ -68,7 +68,14 @@ class C04(PropBase):
         for si, sq in enumerate(sqs):
             pats = self.patterns(rng, sq, tier, si < n_full)
             bad = [flip(sq, p) for p in pats]
-            ops = ["reset", "case 0"] + ["q msg " + b.encode().hex() for b in bad]
+            # the corrupted frame arrives in every line style a receiver may produce: the check is about the digits, whatever
+            # surrounds them (first character: any printable non-hex ASCII; with and without a 12-digit time stamp)
+            def styled(b, k):
+                LEADS = "*:%@#$!&<>[](){}=+-_.,;/|~^' "
+                lead = LEADS[k % len(LEADS)] if k % 5 else ""
+                ts = "".join(rng.choice("0123456789ABCDEF") for _ in range(12)) if k % 3 == 0 else ""
+                return (lead + ts + b + (";" if k % 2 else "")).encode()
+            ops = ["reset", "case 0"] + ["q msg " + styled(b, k).hex() for k, b in enumerate(bad)]
             impl, _, model = run.execute(ops, model=driver_ok)
             rep.evaluations += len(bad)
             rep.traces += 1
@@ -81,7 +88,8 @@ class C04(PropBase):
                     rep.nontriv((sq, p))
                     if a != "msg -":
                         self.fail(rep, f"squitter {sq} with bits {p} flipped has non-zero remainder but is taken as a frame",
-                                  {"ops": ["reset"] + gen.seg([sq]) + ["dump"] + gen.seg([b]) + ["dump"], "valid": sq,
+                                  {"ops": ["reset"] + gen.seg([sq]) + ["dump"] + gen.seg([styled(b, bad.index(b))]) + ["dump"], "valid": sq,
+                                   "line": styled(b, bad.index(b)).decode(),
                                    "flipped_bits": list(p), "corrupted": b, "remainder": "%06X" % syndrome(b)})
                         return
                 else:
@@ -94,7 +102,7 @@ class C04(PropBase):
             inject = [b for b in rng.sample(bad, min(40, len(bad))) if must_reject(b)]
             mixed = list(hist)
             for b in inject:
-                mixed.insert(rng.randrange(len(mixed) + 1), b)
+                mixed.insert(rng.randrange(len(mixed) + 1), styled(b, rng.randrange(1000)))
             for (u, r) in ((False, False), (True, True)):
                 ops = ["reset", gen.cfg_op(use_update=u, relaxed=r), "case clean"] + gen.seg([sq] + hist) + ["dump", "reset",
                        gen.cfg_op(use_update=u, relaxed=r), "case mixed"] + gen.seg([sq] + mixed) + ["dump"]
